@@ -50,6 +50,14 @@ def has_nested_multiple(nodes, inside=False):
 def fetch_req(mt, srcs, diff=False, env=None):
     """env: the os.environ table for $variables (None = variable-free request)"""
     extra = [] if not env else ["zz_env_%d = %s\n" % (i, v) for i, v in enumerate(env.values()) if v.strip()]
+    if env is not None:
+        # value texts that exist only after substitution (`pre$v1`) need their eval answers too
+        try:
+            with env_as(env):
+                extra.append(freephil.parse(input_string=mt).fetch(
+                    sources=[freephil.parse(input_string=s) for s in srcs], diff=diff).as_str())
+        except BaseException:
+            pass
     ev, fm = mgen.tables([mt] + srcs + extra)
     req = ["fetch", enc(mt), [enc(s) for s in srcs], diff, ev, fm]
     if env is not None:
